@@ -11,6 +11,7 @@ You should have received a copy of the GNU Lesser General Public License along w
 If not, see <https://www.gnu.org/licenses/>.
 """
 from __future__ import annotations
+import fnmatch
 from typing import Iterator, List
 
 from spil import Sid, Finder
@@ -104,7 +105,12 @@ class FindInConstants(FindByGlob):
         Returns:
         """
 
+        wanted = str(root.get(self.key) or "*")
         for value in self.values:
+
+            # the key may carry a partial glob ("o*"): only the constants that match it
+            if not fnmatch.fnmatchcase(str(value), wanted.replace(">", "*")):
+                continue
 
             result = root.get_with(key=self.key, value=value)
             if not result:
@@ -158,7 +164,7 @@ class FindInConstants(FindByGlob):
 
                     # the constant "key" is not searched
                     # we can simply yield the parent and the key's value
-                    if root.get(self.key) != "*":
+                    if "*" not in str(root.get(self.key)):
                         if root.get(self.key) not in self.values:
                             continue
                         result = found_root / root.get(self.key)
@@ -171,7 +177,7 @@ class FindInConstants(FindByGlob):
 
                     # the "key" is a search, so we append the constant values
                     else:
-                        generator = self._append_value(found_root, done, as_sid=as_sid)
+                        generator = self._append_value(found_root / root.get(self.key), done, as_sid=as_sid)
                         yield from generator
 
             # no parent search, we just need to append the constant values (below a parent that exists)
